@@ -72,72 +72,12 @@ def gen_world(seed, wi):
         for g in world["genes"][:2]:
             smp["genes"][g["name"]] = gen_units(rng, g)
         samples[smp["name"]] = smp
-    params = {"gap": rng.choice([0, 0, 0.1, 0.3]), "max_minor_solutions": rng.choice([1, 1, 2, 3])}
+    params = {"gap": rng.choice([0, 0, 0.1, 0.3]), "max_minor_solutions": rng.choice([1, 1, 1, 2])}
     return {"world": world, "samples": samples, "params": params,
             "build": "hg19" if rng.random() < 0.8 else "hg38"}
 
 
-def _ambiguous_pair(g):
-    """(single-a, single-b, combined) allele names of an ambiguous catalogue."""
-    normal = [a for a in g["alleles"] if a["kind"] == "normal"]
-    func = lambda a: tuple(sorted(v for v in a["vars"] if g["variants"][v]["func"]))  # noqa
-    by = {}
-    for a in normal:
-        by.setdefault(func(a), []).append(a["name"])
-    for fs, names in by.items():
-        if len(fs) == 2 and (fs[0],) in by and (fs[1],) in by and () in by:
-            return by[(fs[0],)][0], by[(fs[1],)][0], names[0], by[()][0]
-    return None
-
-
-def gen_units(rng, g):
-    amb = _ambiguous_pair(g)
-    if amb and rng.random() < 0.5:
-        a, b, ab, ref = amb
-        units = [{"type": "normal", "allele": a}, {"type": "normal", "allele": b}]
-        if rng.random() < 0.5:
-            units = [{"type": "normal", "allele": ab}, {"type": "normal", "allele": ref}]
-        _add_noise(rng, g, units)
-        return units
-    units = _gen_units(rng, g)
-    _add_noise(rng, g, units)
-    return units
-
-
-def _add_noise(rng, g, units):
-    """Low-fraction extra SNPs (catalogued or not) on some copies: what the read
-    filters exist for, and what makes the filters' copy-number dependence visible."""
-    snps = [k for k, v in list(g["variants"].items()) + list(g.get("unused_variants", {}).items())
-            if v["kind"] == "snp"]
-    if not snps or rng.random() < 0.4:
-        return
-    for _ in range(rng.randint(1, 2)):
-        u = rng.choice(units)
-        if u["type"] == "deletion":
-            continue
-        u.setdefault("noise", []).append(
-            {"vid": rng.choice(snps), "frac": rng.choice([0.2, 0.3, 0.35, 0.4, 0.5, 0.6])})
-
-
-def _gen_units(rng, g):
-    normal = [a["name"] for a in g["alleles"] if a["kind"] == "normal"]
-    dele = [a["name"] for a in g["alleles"] if a["kind"] == "deletion"]
-    lf = [a["name"] for a in g["alleles"] if a["kind"] == "lfusion"]
-    rf = [a["name"] for a in g["alleles"] if a["kind"] == "rfusion"]
-    units = []
-    for h in range(2):
-        r = rng.random()
-        if dele and r < 0.12:
-            units.append({"type": "deletion"})
-        elif lf and r < 0.24:
-            units.append({"type": "lfusion", "allele": lf[0], "parent": rng.choice(normal)})
-        elif rf and r < 0.34:
-            units.append({"type": "rfusion", "allele": rf[0]})
-        else:
-            units.append({"type": "normal", "allele": rng.choice(normal)})
-    if rng.random() < 0.25 and not all(u["type"] == "deletion" for u in units):
-        units.append({"type": "extra", "allele": rng.choice(normal)})
-    return units
+from ..workload import gen_units, _ambiguous_pair, _add_noise, _gen_units  # noqa: E402,F401
 
 
 def gen_op(rng, w):
